@@ -1,5 +1,6 @@
 """C12 — runtime lifecycle: exclusive accept, shutdown always completes, restart possible."""
 import random
+import threading
 import time
 
 from .sched import S
@@ -20,6 +21,14 @@ def gen(seed, tier):
     knobs = base_knobs(rng, tier)
     knobs["stalls"] = gen_stalls(rng)
     ad = knobs["accept_delay"] = rng.choice([0.01, 0.1, 0.25, 1.0])
+    if rng.random() < 0.12:
+        # family: several runners call accept() at (almost) the same instant - exactly one of them
+        # becomes the active runner, every other call is rejected; nobody waits for its turn
+        n = rng.choice([2, 2, 3, 4])
+        knobs["strategy"] = rng.choice([{"kind": "random", "p": 0.2}, {"kind": "random", "p": 0.5}, {"kind": "pct", "d": 2, "len": 400}, knobs["strategy"]])
+        knobs["horizon"] = 60.0
+        contest = {"n": n, "delays": [rng.choice([0.0, 0.0, 0.0, 1e-4, 1e-3]) for _ in range(n)], "hold": 1.5 + 3 * ad + sum(st["dur"] for st in knobs["stalls"]), "rounds": n}
+        return {"prop": "C12", "seed": seed, "knobs": knobs, "payloads": [], "phases": [], "contest": contest, "grace": 0.5}
     nphases = rng.choice([1, 2, 2, 3, 3, 4])
     payloads, phases = [], []
     polls = poll_instants(ad)
@@ -78,7 +87,96 @@ def gen(seed, tier):
     return {"prop": "C12", "seed": seed, "knobs": knobs, "payloads": payloads, "phases": phases, "grace": 0.5}
 
 
+def main_contest(h):
+    c = h.sc["contest"]
+    runners = [h.new_runner() for _ in range(c["n"])]
+
+    def contend(i):
+        if c["delays"][i]:
+            time.sleep(c["delays"][i])
+        h.ev("contest-call", runner=i)
+        S.count_fault("concurrent-accept")
+        try:
+            runners[i].accept()
+        except BaseException as err:
+            h.ev("contest-ended", runner=i, how="raised", type=type(err).__name__, has_cause=err.__cause__ is not None, text=str(err)[:80])
+        else:
+            h.ev("contest-ended", runner=i, how="returned")
+
+    def supervise():
+        for rnd in range(c["rounds"]):
+            time.sleep(c["hold"])
+            up = [i for i, r in enumerate(runners) if r.running.is_set()]
+            h.ev("contest-snapshot", round=rnd, running=up)
+            for i in up:
+                h.ev("shutdown-call", "sup", by="sup", runner=i)
+                try:
+                    runners[i].shutdown()
+                except BaseException as err:
+                    h.ev("shutdown-raised", "sup", by="sup", exc=type(err).__name__, text=str(err)[:80])
+                else:
+                    h.ev("shutdown-returned", "sup", by="sup")
+        h.ev("driver-done", "sup")
+
+    threads = [threading.Thread(target=contend, args=(i,), daemon=True, name="driver-contender%d" % i) for i in range(1, c["n"])]
+    threads.append(threading.Thread(target=supervise, daemon=True, name="driver-sup"))
+    for t in threads:
+        t._target_name = "driver"
+        t.start()
+    contend(0)
+    time.sleep(c["hold"] * c["rounds"] + 1.0)
+
+
+def check_contest(h, reason):
+    v = []
+
+    def V(key, msg):
+        if not any(x["key"] == key for x in v):
+            v.append({"key": key, "msg": msg})
+
+    ev = h.events
+    c = h.sc["contest"]
+    n = c["n"]
+    shape = ["C12-contest", n, c["delays"]]
+    snaps = [e for e in ev if e["kind"] == "contest-snapshot"]
+    calls = [e for e in ev if e["kind"] == "contest-call"]
+    if len(calls) < n or not snaps:
+        return v, shape, False
+    s0 = snaps[0]
+    ended0 = {e["runner"]: e for e in ev if e["kind"] == "contest-ended" and e["seq"] < s0["seq"]}
+    if len(s0["running"]) > 1:
+        V("C12/contest/several-running", "%d runners were accepting at the same time: %r" % (len(s0["running"]), s0["running"]))
+    if not s0["running"]:
+        V("C12/contest/none-running", "%d concurrent accept() calls, none was running %.2fs later; outcomes %r" % (n, c["hold"], {k: (e["how"], e.get("type")) for k, e in ended0.items()}))
+    for i in range(n):
+        if i in s0["running"]:
+            continue
+        e = ended0.get(i)
+        if e is None:
+            V("C12/contest/not-rejected", "accept() of runner %d, called while runner %r was accepting, had neither been rejected nor started %.2fs later: it waits for its turn" % (i, s0["running"], c["hold"]))
+        elif e["how"] != "raised" or e.get("type") != "RuntimeError" or e.get("has_cause"):
+            V("C12/contest/wrong-outcome/%s" % (e.get("type") or "returned"), "concurrent accept() of runner %d: %s %s (%s)" % (i, e["how"], e.get("type"), e.get("text")))
+    # the winner was shut down at the snapshot: it returns normally, and nobody takes over afterwards
+    allended = {e["runner"]: e for e in ev if e["kind"] == "contest-ended"}
+    for i in s0["running"][:1]:
+        e = allended.get(i)
+        if e is None:
+            V("C12/contest/winner-hangs", "runner %d was shut down at t=%.3f but its accept() had not ended (%s)" % (i, s0["t"], reason))
+        elif e["how"] != "returned":
+            V("C12/contest/winner-raised/%s" % e.get("type"), "after shutdown() the winner's accept() raised %s (%s)" % (e.get("type"), e.get("text")))
+    for sn in snaps[1:]:
+        if sn["running"]:
+            V("C12/contest/took-over-later", "runner(s) %r started accepting %.2fs after the concurrent calls, once the active runner had been shut down" % (sn["running"], sn["t"] - calls[0]["t"]))
+            break
+    for e in ev:
+        if e["kind"] == "shutdown-raised" and e.get("by") == "sup":
+            V("C12/shutdown-raised/contest/%s" % e.get("exc"), "shutdown() raised %s: %s" % (e.get("exc"), e.get("text")))
+    return v, shape, True
+
+
 def main(h):
+    if h.sc.get("contest"):
+        return main_contest(h)
     for i, ph in enumerate(h.sc["phases"]):
         r = h.new_runner()
         h.ev("phase", phase=i)
@@ -90,6 +188,8 @@ def main(h):
 
 
 def check(h, reason):
+    if h.sc.get("contest"):
+        return check_contest(h, reason)
     v = []
 
     def V(key, msg):
